@@ -73,7 +73,9 @@ def _defaults():
     return _DFLT[0]
 
 
-def make_job(scene, tag):
+def make_job(scene, tag=None):
+    tag = scene.get('tag', tag)      # the label belongs to the job, not to its position
+
     def job():
         import ampycloud
         chunk = ampycloud.run(scenes.to_frame(scene), prms=scene['prms'] or None,
@@ -115,14 +117,33 @@ def pick_strategy(rng, n_workers, total_steps, fn_counts):
     return threads.FunctionAligned(rng, n_workers, fn_counts)
 
 
-def simulate(jobs, sched, refs, census=None, clock_seed=0):
-    """Run the jobs under sched; returns (sim, mismatches) where mismatches is a list of
-    (worker, changed components)."""
-    caps = [20 * r[1] + 1000 for r in refs]
+class SimResult:
+    """Picklable summary of one simulated execution (it ran in its own fork)."""
+
+    def __init__(self, sim, clock, name):
+        self.results, self.steps, self.switches = sim.results, sim.steps, sim.switches
+        self.probes, self.cores, self.trace_hash = sim.probes, sim.cores, sim.trace_hash
+        self._schedule = sim.compact_schedule()
+        self.clock_kinds, self.clock_span = clock.kinds, clock.span_s()
+        self.sched_name = name
+
+    def compact_schedule(self):
+        return self._schedule
+
+
+def _simulate_here(jobs, sched, caps, with_census, clock_seed):
+    census = Census() if with_census else None
     with seams.scripted_clock(kernel.stream(clock_seed, 'clock')) as clock:
         sim = threads.ThreadSim([make_job(s, i) for i, s in enumerate(jobs)], sched,
                                 step_caps=caps, census=census).run()
-    sim.clock = clock
+    return SimResult(sim, clock, sched.name)
+
+
+def simulate(jobs, sched, refs, census=None, clock_seed=0):
+    """Run the jobs under sched in a fresh fork; returns (SimResult, mismatches) where
+    mismatches is a list of (worker, changed components)."""
+    caps = [20 * r[1] + 1000 for r in refs]
+    sim = kernel.in_fork(_simulate_here, jobs, sched, caps, census is not None, clock_seed)
     bad = []
     for i, ref in enumerate(refs):
         got = sim.results[i]
@@ -132,13 +153,22 @@ def simulate(jobs, sched, refs, census=None, clock_seed=0):
     return sim, bad
 
 
-def references(jobs, clock_seed=0, census=None, dirty=None):
+def _reference_here(scene, i, clock_seed, with_census, lines):
+    census = Census() if with_census else None
+    with seams.scripted_clock(kernel.stream(clock_seed, f'clock-ref-{i}')):
+        ref = threads.reference_run(make_job(scene, i), lines=lines, census=census)
+    return ref, list(threads.reference_run.last_dirty)
+
+
+def references(jobs, clock_seed=0, census=None, dirty=None, lines=False):
+    """Isolated reference of every job: alone, each in its own fresh fork."""
     refs = []
-    with seams.scripted_clock(kernel.stream(clock_seed, 'clock-ref')):
-        for i, scene in enumerate(jobs):
-            refs.append(threads.reference_run(make_job(scene, i), census=census))
-            if dirty is not None:
-                dirty.append(list(threads.reference_run.last_dirty))
+    for i, scene in enumerate(jobs):
+        ref, drt = kernel.in_fork(_reference_here, scene, i, clock_seed, census is not None,
+                                  lines)
+        refs.append(ref)
+        if dirty is not None:
+            dirty.append(drt)
     return refs
 
 
@@ -174,7 +204,8 @@ def shrink_line(vio, evaluate, budget=45):
             keep = [i for i in range(len(case['jobs'])) if i != drop]
             remap = {old: new for new, old in enumerate(keep)}
             cand = dict(case, jobs=[case['jobs'][i] for i in keep],
-                        schedule=[[remap[w], n] for w, n in case['schedule'] if w in remap])
+                        schedule=[[remap[seg[0]]] + list(seg[1:]) for seg in case['schedule']
+                                  if seg[0] in remap])
             v = test(cand)
             if v is not None:
                 case, best = cand, v
@@ -238,6 +269,8 @@ def run_line(seed, out, bump):
         jobs[1] = gen_job(rng_scene, None, twin_of=jobs[0])
         classes[1] = jobs[1]['cls']
         bump('probe.twin_shape_job_pair')
+    for i, job in enumerate(jobs):
+        job['tag'] = i
     dirty = []
     refs = references(jobs, seed, census=Census(), dirty=dirty)
     for scene, ref in zip(jobs, refs):
@@ -266,9 +299,9 @@ def run_line(seed, out, bump):
         bump('fault.thread_preemption_at_line', sim.switches)
         bump('fault.preemption_while_global_state_dirty',
              sim.probes.get('parked_while_dirty', 0))
-        for key, v in sim.clock.kinds.items():
+        for key, v in sim.clock_kinds.items():
             bump(f'fault.clock_{key}', v)
-        out['clock_span_s'] = max(out.get('clock_span_s', 0), sim.clock.span_s())
+        out['clock_span_s'] = max(out.get('clock_span_s', 0), sim.clock_span)
         for key, v in sim.probes.items():
             bump(f'probe.{key}', v)
         bump(f'strategy.{sched.name.split("(")[0]}')
@@ -306,6 +339,7 @@ def sweep_jobs(seed, dense=True):
             gen_job(rng, None, density=0.3, twin_of=job_a)
         if scenes.probe(job_b, prms=job_b['prms'])['raised'] in (None, 'AmpycloudError'):
             break
+    job_a['tag'], job_b['tag'] = 0, 1
     return [job_a, job_b]
 
 
@@ -316,12 +350,11 @@ def run_sweep(run, out, bump):
     jobs = sweep_jobs(run['seed'], run.get('dense', True))
     a = run['dir']
     b = 1 - a
-    refs = references(jobs, run['seed'])
+    refs = references(jobs, run['seed'], lines=True)
     if any(r[0][0] == 'exc' and r[0][1] != 'AmpycloudError' for r in refs):
         bump('scenes_discarded')
         return
-    with seams.scripted_clock(kernel.stream(run['seed'], 'clock-ref')):
-        lines = threads.reference_run(make_job(jobs[a], a), lines=True)[4]
+    lines = refs[a][4]
     keys = sorted(lines)
     out['sets']['sweep_static_lines'] = {f'{run["seed"]}:{a}:{len(keys)}'}
     rng = kernel.stream(run['seed'], f'occ-{run["lo"]}')
@@ -436,8 +469,8 @@ def run_stage(run, out, bump):
         classes[1] = jobs[1]['cls']
         bump('probe.twin_shape_job_pair')
     try:
-        trajs = [stage_trajectory(s, i) for i, s in enumerate(jobs)]
-    except Exception:
+        trajs = [kernel.in_fork(stage_trajectory, s, i) for i, s in enumerate(jobs)]
+    except kernel.HarnessError:
         bump('scenes_discarded')
         return
     out['log'].append(kernel.sha(repr(trajs)))
@@ -455,7 +488,7 @@ def run_stage(run, out, bump):
             orders.append(tuple(o))
     reported = False
     for order in orders:
-        bad = run_merge(jobs, order, trajs)
+        bad = kernel.in_fork(run_merge, jobs, order, trajs)     # every merge in a fresh fork
         out['n_eval'] += 1
         out['steps'] += len(order)
         bump('fault.adversarial_stage_order')
@@ -530,8 +563,8 @@ def execute(run):
 def replay(case):
     jobs = case['jobs']
     if case['kind'] == 'stage':
-        trajs = [stage_trajectory(s, i) for i, s in enumerate(jobs)]
-        bad = run_merge(jobs, case['order'], trajs)
+        trajs = [kernel.in_fork(stage_trajectory, s, i) for i, s in enumerate(jobs)]
+        bad = kernel.in_fork(run_merge, jobs, case['order'], trajs)
         return _stage_violation(jobs, case['order'], bad) if bad else None
     refs = references(jobs, case.get('clock_seed', 0))
     _, bad = simulate(jobs, threads.Replay(case['schedule']), refs,
